@@ -217,6 +217,9 @@ def to_model(element: model.ContentElement, is_teletext: bool, tti_cct: bytes, t
 
   context = _Context(element, is_teletext, decode_func)
 
+  # the text ends at the first unused space code
+  is_double_height = has_double_height_char(tti_tf.partition(b'\x8f')[0])
+
   while True:
 
     c = tf_iter.cur()
@@ -229,7 +232,8 @@ def to_model(element: model.ContentElement, is_teletext: bool, tti_cct: bytes, t
         context.append_character(c)
 
     elif _is_newline_code(c):
-      if not _is_newline_code(tf_iter.peek_next()) and not _is_unused_space_code(tf_iter.peek_next()):
+      # in double-height text, rows are separated by two newline codes, of which the first is ignored
+      if not (is_double_height and _is_newline_code(tf_iter.peek_next())) and not _is_unused_space_code(tf_iter.peek_next()):
         context.end_span()
         element.push_child(model.Br(element.get_doc()))
         if is_teletext:
